@@ -54,7 +54,7 @@ theorem siteUsages_eq (S : VSchema) (defs : Option (List ArgDef)) (args : List (
     have : argUsages S none = fun _ => [] := by
       funext a; simp [argUsages, inputUsages_none]
     rw [this]
-    simpa [siteUsages] using flatMap_const_nil args
+    simp [siteUsages]
   | some ds =>
     simp only [siteUsages]
     congr 1; funext a
